@@ -35,6 +35,17 @@ STD_OFFSET_H = {"America/Chicago": -6, "US/Pacific": -8, "Europe/London": 0, "Au
                 # fixed-offset tzinfo objects (no IANA name)
                 "pytzfixed:-360": -6, "dtfixed:330": 5, "pytzfixed:600": 10, "Australia/Brisbane": 10}
 FIXED_TZS = ["pytzfixed:-360", "dtfixed:330", "pytzfixed:600"]
+STD_OFFSET_H.update({"Etc/GMT+8": -8, "Pacific/Pitcairn": -8})
+# zones with the same standard offset but the other daylight-saving behaviour: two gapless hourly periods that begin
+# and end in standard time have the same first instant, last instant and length in both, and other wall clocks inside
+CONTRAST = {"America/Chicago": ["America/Regina", "Etc/GMT+6", "pytzfixed:-360"], "America/Regina": ["America/Chicago"],
+            "Etc/GMT+6": ["America/Chicago"], "pytzfixed:-360": ["America/Chicago"],
+            "US/Pacific": ["Etc/GMT+8", "Pacific/Pitcairn"], "America/Vancouver": ["Etc/GMT+8", "Pacific/Pitcairn"],
+            "Etc/GMT+8": ["US/Pacific"], "Pacific/Pitcairn": ["US/Pacific", "America/Vancouver"],
+            "Europe/London": ["UTC", "Atlantic/Reykjavik"], "Europe/Lisbon": ["UTC", "Atlantic/Reykjavik"],
+            "UTC": ["Europe/London", "Europe/Lisbon"], "Atlantic/Reykjavik": ["Europe/London"],
+            "Australia/Sydney": ["Australia/Brisbane", "pytzfixed:600"], "Australia/Melbourne": ["Australia/Brisbane"],
+            "Australia/Brisbane": ["Australia/Sydney"], "pytzfixed:600": ["Australia/Sydney", "Australia/Melbourne"]}
 LOOKALIKE = {"America/Chicago": ["America/Regina", "Etc/GMT+6"], "US/Pacific": ["America/Vancouver"],
              "Europe/London": ["Europe/Lisbon", "UTC", "Atlantic/Reykjavik"], "Australia/Sydney": ["Australia/Melbourne"],
              "Asia/Kolkata": ["Asia/Colombo"], "UTC": ["Atlantic/Reykjavik", "Europe/London"],
